@@ -137,6 +137,34 @@ pub fn read_request_padded(rng: &mut Rng, n: usize, total: Option<usize>) -> Sup
     r.into()
 }
 
+/// OpenSecureChannel / CloseSecureChannel messages (they travel in OPN / CLO chunks; an OPN chunk has the
+/// asymmetric security header). `nonce` bytes make the OPN message as long as wanted.
+pub fn channel_message(kind: &str, nonce: usize) -> SupportedMessage {
+    match kind {
+        "opn-req" => OpenSecureChannelRequest {
+            request_header: RequestHeader::new(&NodeId::null(), &DateTime::null(), 1),
+            client_protocol_version: 0,
+            request_type: SecurityTokenRequestType::Issue,
+            security_mode: MessageSecurityMode::None,
+            client_nonce: if nonce == 0 { ByteString::null() } else { ByteString::from(vec![5u8; nonce]) },
+            requested_lifetime: 60000,
+        }
+        .into(),
+        "opn-resp" => OpenSecureChannelResponse {
+            response_header: ResponseHeader::new_good(&RequestHeader::new(&NodeId::null(), &DateTime::null(), 1)),
+            server_protocol_version: 0,
+            security_token: ChannelSecurityToken { channel_id: 1, token_id: 1, created_at: DateTime::null(), revised_lifetime: 60000 },
+            server_nonce: if nonce == 0 { ByteString::null() } else { ByteString::from(vec![6u8; nonce]) },
+        }
+        .into(),
+        "clo-resp" => CloseSecureChannelResponse {
+            response_header: ResponseHeader::new_good(&RequestHeader::new(&NodeId::null(), &DateTime::null(), 1)),
+        }
+        .into(),
+        _ => CloseSecureChannelRequest { request_header: RequestHeader::new(&NodeId::null(), &DateTime::null(), 4) }.into(),
+    }
+}
+
 /// An `AsyncWrite` that accepts at most `accept` bytes of one write.
 struct Sink {
     accept: usize,
@@ -402,6 +430,10 @@ fn gen_tx(rng: &mut Rng, _tier: Tier, out: &mut Vec<String>) {
                     let t = *rng.pick(&[cap - 1, cap, cap + 1, 2 * cap - 1, 2 * cap, 2 * cap + 1, 20000]);
                     let k = rng.below(4) as usize;
                     read_request_padded(rng, k, Some(t))
+                } else if rng.chance(1, 4) {
+                    // OPN / CLO chunk types on the sender
+                    let nonce = *rng.pick(&[0usize, 0, 32, 8100, 8200, 17000]);
+                    channel_message(*rng.pick(&["opn-req", "opn-req", "clo-req", "opn-resp", "clo-resp"]), nonce)
                 } else {
                     let k = rng.below(6) as usize;
                     read_request(rng, k)
@@ -560,6 +592,27 @@ pub fn gen_systematic(rng: &mut Rng, out: &mut Vec<String>) {
         let (nid, bytes) = message_bytes(&m);
         out.push(format!("write 7 {} x{}", nid, hex(&bytes)));
         out.push("pump [100000,100000]".to_string());
+    }
+    let opn_cap = 8196 - 79;
+    let base = message_bytes(&channel_message("opn-req", 1)).1.len() - 1;
+    for kind in ["opn-req", "opn-resp", "clo-req", "clo-resp"] {
+        for total in [0usize, opn_cap - 1, opn_cap, opn_cap + 1, 2 * opn_cap, 2 * opn_cap + 1] {
+            for mc in [0usize, 2] {
+                out.push(format!("reset tx 8196 0 {} 3 9 1", mc));
+                let nonce = if total == 0 { 0 } else { total.saturating_sub(base) };
+                let m = channel_message(kind, nonce);
+                let (nid, bytes) = message_bytes(&m);
+                out.push(format!("write 7 {} x{}", nid, hex(&bytes)));
+                out.push("write 8 4 x01007702000000000000000000008202000000000000ffffffff0000000000000000000000000000000200000000000000".to_string());
+                out.push("pump [100000,100000,100000,100000,100000,100000]".to_string());
+                if kind.starts_with("clo") {
+                    break;
+                }
+            }
+            if kind.starts_with("clo") {
+                break;
+            }
+        }
     }
     for mm in [99usize, 100, 101] {
         // node id (4) + body: body = 96 + ... ; total 104 -> body 100
